@@ -166,7 +166,14 @@ func (r *Result) Release() {
 	r.Ops, r.Media, r.Events, r.Gens, r.Lines, r.sim = nil, nil, nil, nil, nil, nil
 }
 
-func (s *Sim) count(k string)         { s.counter[k]++ }
+func (s *Sim) count(k string) { s.counter[k]++ }
+
+// countLocked may be called by several goroutines woken in the same step.
+func (s *Sim) countLocked(k string) {
+	s.sched.mu.Lock()
+	s.counter[k]++
+	s.sched.mu.Unlock()
+}
 func (s *Sim) countN(k string, n int) { s.counter[k] += n }
 
 func (s *Sim) wants(prop string) bool { return s.target == "" || s.target == prop || s.target == "*" }
@@ -303,6 +310,12 @@ func (s *Sim) root() {
 	s.startTime = time.Now()
 	s.base = logging.ContextWithLogger(context.Background(), noopLogger{})
 	verifhook.Hook = s.hook
+	fineOn := map[string]bool{}
+	for _, f := range s.in.Cfg.FineSites {
+		fineOn[f] = true
+	}
+	installFineHooks(s.sched, fineOn, s.countLocked)
+	defer uninstallFineHooks()
 	verifhook.Dead = func(ctx context.Context) bool {
 		t := taskFrom(ctx)
 		return t != nil && t.Gen != nil && t.Gen.dead.Load()
@@ -317,6 +330,10 @@ func (s *Sim) root() {
 		}
 		s.sched.step++
 		if s.sched.step > s.sched.maxSteps {
+			if len(s.in.Cfg.FineSites) > 0 {
+				s.count("fine.step-cap") // statement-level yields inside a loop: the run is abandoned
+				break
+			}
 			s.harnessErr = fmt.Sprintf("step cap %d exceeded", s.sched.maxSteps)
 			break
 		}
